@@ -137,22 +137,24 @@ BAD["kmer"] = BAD["dna"]
 
 
 def negative(tier, seed):
-    """[(macro, text, bad_class or None)] - good lines (None) interleaved with offending ones"""
+    """[(macro, storage, text, bad_class or None)] - good lines (None) interleaved with offending ones"""
     th = tier == "thorough"
     out = []
-    for mac in ["dna", "iupac", "kmer"]:
+    for mac, storage in [("dna", None), ("iupac", None), ("kmer", None), ("kmer", "usize"), ("kmer", "u64"), ("kmer", "u128")]:
         alpha = IUPAC if mac == "iupac" else DNA
         lens = [1, 2, 5, 16, 32] if mac == "kmer" else [1, 2, 5, 16, 32, 33, 65, 130]
+        if storage == "u128":
+            lens = [1, 5, 33, 64]
         if not th:
-            lens = lens[:5] + lens[6:7]
+            lens = (lens[:5] + lens[6:7]) if not storage else [lens[0], lens[2], lens[-1]]
         for n in lens:
             base = background(alpha, n, seed + 5000 + n)
-            out.append((mac, base, None))
+            out.append((mac, storage, base, None))
             pos = sorted(set(range(n)) if (th and n <= 33) else {0, n // 2, n - 1})
             for p in pos:
                 for cls, ch in BAD[mac]:
-                    out.append((mac, base[:p] + ch + base[p + 1:], cls))
-                out.append((mac, background(alpha, n, seed + 6000 + n + p), None))
+                    out.append((mac, storage, base[:p] + ch + base[p + 1:], cls))
+                out.append((mac, storage, background(alpha, n, seed + 6000 + n + p), None))
     return out
 
 
@@ -220,22 +222,21 @@ def run_negative(res, negs, root, env, tag):
     proj = progs.project(root, "c16neg" + tag)
     head = "#![allow(unused)]\nuse bio_seq::prelude::*;\nfn main() {\n"
     first = head.count("\n") + 1
-    lines = [f"    let _ = {lit_expr(m, None, t)};" for (m, t, c) in negs]
+    lines = [f"    let _ = {lit_expr(m, st, t)};" for (m, st, t, c) in negs]
     progs.write_bin(proj, "neg", head + "\n".join(lines) + "\n}\n")
     rc, msgs, err = progs.check_bin(proj, root, env, "neg")
     el = progs.error_lines(msgs, "src/bin/neg.rs")
-    if rc == 0 and any(c for (_, _, c) in negs):
-        pass  # nothing was rejected at all: every offending line below is a violation
-    for k, (m, t, c) in enumerate(negs):
+    for k, (m, st, t, c) in enumerate(negs):
         ln = first + k
-        res.case({"macro": m, "text": t[:60], "offending": c} if k % 41 == 0 else None)
+        res.case({"macro": m, "storage": st, "text": t[:60], "offending": c} if k % 41 == 0 else None)
         res.check()
         has = ln in el
-        res.outcome((m, c, has))
+        res.outcome((m, st, c, has))
+        form = f"{m}!" if not st else f"{m}!(_, {st})"
         if c and not has:
-            res.violation(f"{m}!/invalid-literal-compiles/{c}", f"{lit_expr(m, None, t)} (offending character class: {c}) is accepted by the compiler", {"kind": "negative", "macro": m, "text": t, "class": c})
+            res.violation(f"{form}/invalid-literal-compiles/{c}", f"{lit_expr(m, st, t)} (offending character class: {c}) is accepted by the compiler", {"kind": "negative", "macro": m, "storage": st, "text": t, "class": c})
         if not c and has:
-            res.violation(f"{m}!/valid-literal-rejected", f"{lit_expr(m, None, t)} is rejected: {el[ln][0][:200]}", {"kind": "negative", "macro": m, "text": t, "class": None})
+            res.violation(f"{form}/valid-literal-rejected", f"{lit_expr(m, st, t)} is rejected: {el[ln][0][:200]}", {"kind": "negative", "macro": m, "storage": st, "text": t, "class": None})
 
 
 def run(tier, seed, root, env):
@@ -245,8 +246,8 @@ def run(tier, seed, root, env):
     run_positive(res, lits, root, env, "")
     run_negative(res, negs, root, env, "")
     res.count("positive literals (each a separate macro expansion, compiled and run)", len(lits))
-    res.count("negative lines checked for a compile error", sum(1 for n in negs if n[2]))
-    res.count("valid control lines interleaved with the negative ones", sum(1 for n in negs if not n[2]))
+    res.count("negative lines checked for a compile error", sum(1 for n in negs if n[3]))
+    res.count("valid control lines interleaved with the negative ones", sum(1 for n in negs if not n[3]))
     res.r["extra"] = {"engine": "E3 program generator", "lengths_dna": [31, 32, 33, 63, 64, 65, 127, 128, 129, 200], "lengths_iupac": [3, 15, 16, 17, 31, 32, 33, 63, 64, 65]}
     return [res.done()]
 
@@ -255,7 +256,7 @@ def replay(rec, root, env):
     c = rec["case"]
     res = progs.Result("C16", "E3-literal-programs", "dev", "quick", 0, "c16")
     if c["kind"] == "negative":
-        run_negative(res, [(c["macro"], c["text"], c["class"])], root, env, "replay")
+        run_negative(res, [(c["macro"], c.get("storage"), c["text"], c["class"])], root, env, "replay")
     else:
         run_positive(res, [(c["macro"], c.get("storage"), c["text"])], root, env, "replay")
     r = res.done()
